@@ -181,8 +181,11 @@ func observeErr(err error) string {
 // Writer* carriers: the error comes out of the backend's BlobWriter, not out of a registry method.
 var c07WriterCarriers = map[string]string{"WriterWriteClose": "write", "WriterWriteCommit": "write", "WriterBigWrite": "write", "WriterCommit": "commit", "WriterWriteThenCommit": "commit"}
 
-var c07Carriers = []string{"WriterWriteClose", "WriterWriteCommit", "WriterBigWrite", "WriterCommit", "WriterWriteThenCommit", "GetBlob", "GetBlobRange", "GetManifest", "GetTag", "ResolveBlob", "ResolveManifest", "ResolveTag",
+var c07Carriers = []string{"WriterResumeExplicit", "PushBlobChunkedResumeAsk", "WriterWriteClose", "WriterWriteCommit", "WriterBigWrite", "WriterCommit", "WriterWriteThenCommit", "GetBlob", "GetBlobRange", "GetManifest", "GetTag", "ResolveBlob", "ResolveManifest", "ResolveTag",
 	"PushManifest", "MountBlob", "PushBlob", "PushBlobChunked", "DeleteBlob", "DeleteManifest", "DeleteTag", "Repositories", "Tags", "Referrers"}
+
+// c07ResumeID is the upload ID the PushBlobChunkedResume carriers resume.
+var c07ResumeID = "someid"
 
 func callCarrier(r ociregistry.Interface, carrier string) error {
 	ctx := context.Background()
@@ -253,10 +256,22 @@ func callCarrier(r ociregistry.Interface, carrier string) error {
 			w.Close()
 		}
 		return err
-	case "PushBlobChunkedResume":
-		w, err := r.PushBlobChunkedResume(ctx, "foo/bar", "someid", 0, 0)
+	case "PushBlobChunkedResume", "WriterResumeExplicit":
+		// with an explicit offset the client makes no request until the first flush: the backend's
+		// refusal to resume comes out of the writer (hence a Writer* carrier: identity only)
+		w, err := r.PushBlobChunkedResume(ctx, "foo/bar", c07ResumeID, 0, 0)
 		if err == nil {
 			// over HTTP an explicit offset defers the first request to the first flush
+			_, err = w.Write([]byte("x"))
+			if err == nil {
+				err = w.Close()
+			}
+		}
+		return err
+	case "PushBlobChunkedResumeAsk":
+		// offset -1: the client asks the registry how far the upload has got
+		w, err := r.PushBlobChunkedResume(ctx, "foo/bar", c07ResumeID, -1, 0)
+		if err == nil {
 			_, err = w.Write([]byte("x"))
 			if err == nil {
 				err = w.Close()
@@ -297,8 +312,19 @@ func (e *c07) Impl(c Case) []string {
 			}
 			e.cur = err
 			e.wmode = c07WriterCarriers[t[3]]
+			if strings.HasPrefix(t[3], "PushBlobChunkedResume") || t[3] == "WriterResumeExplicit" {
+				// a genuine upload ID for this hop: start an upload while the backend still cooperates
+				e.wmode = "commit"
+				w, err := e.ch.regs[n].PushBlobChunked(context.Background(), "foo/bar", 0)
+				if err != nil {
+					return "harness: cannot start an upload: " + err.Error()
+				}
+				c07ResumeID = w.ID()
+				w.Close()
+				e.wmode = ""
+			}
 			obs := observeErr(callCarrier(e.ch.regs[n], t[3]))
-			if _, isWriter := c07WriterCarriers[t[3]]; isWriter && n > 0 {
+			if strings.HasPrefix(t[3], "Writer") && n > 0 {
 				// BlobWriter methods are not among the property's carriers for the message clause: the
 				// client and server add context to the message on purpose ("cannot close BlobWriter: …").
 				// Identity (status, code, detail, errors.Is) is compared; message and text are masked.
